@@ -9,7 +9,7 @@ import types
 from .. import tlc
 from ..core import MachineryError, pmap
 
-PRELUDE = ["(defmacro idm [x] x)", "(defmacro wrapm [x] `(do (e 0 0) ~x))"]
+PRELUDE = ["(defmacro idm [x] x)", "(defmacro wrapm [x] `(do (e 0 0) ~x))", "(setv aug-x 1)"]
 
 # name -> (lines before the hole, text appended to the hole's last line, lines after)
 TEMPLATES = {
@@ -49,6 +49,8 @@ RAISERS = {
     "call": ["(boom)"], "call3": ["(boom", "1", "2)"], "div2": ["(/ 1", "0)"], "index2": ["(get []", "5)"],
     "attr2": ["(. None", "nosuch)"], "name": ["hyv_undefined_name"], "raise2": ["(raise", "(ValueError))"],
     "assert": ["(assert False)"], "unpack2": ["(setv [p q]", "[1])"],
+    "aug3": ["(+= aug-x 1", '"a")'], "cmp2": ["(< 1", "None)"], "chainc2": ["(chainc 1 <", "None)"],
+    "kwcall2": ["(idf2 1", ":k 2)"], "cut2": ["(cut 5", "1)"],
 }
 FILENAME = "<hyv_lines>"
 
@@ -80,7 +82,7 @@ def run_program(text):
     @contextlib.contextmanager
     def cm():
         yield 1
-    mod.__dict__.update(e=lambda k, v: v, boom=boom, cm=cm, idf=lambda *a, **k: None)
+    mod.__dict__.update(e=lambda k, v: v, boom=boom, cm=cm, idf=lambda *a, **k: None, idf2=lambda a: None)
     try:
         tree = hy_compile(hy.models.Lazy(read_many(text, filename=FILENAME)), mod, filename=FILENAME, source=text)
         code = compile(tree, FILENAME, "exec")
@@ -109,7 +111,8 @@ def run_program(text):
 
 EXC = {"call": "RuntimeError", "call3": "RuntimeError", "div2": "ZeroDivisionError", "index2": "IndexError",
        "attr2": "AttributeError", "name": "NameError", "raise2": "ValueError", "assert": "AssertionError",
-       "unpack2": "ValueError"}
+       "unpack2": "ValueError", "aug3": "TypeError", "cmp2": "TypeError", "chainc2": "TypeError", "kwcall2": "TypeError",
+       "cut2": "TypeError"}
 
 
 def _one(rec):
@@ -125,7 +128,7 @@ def main(run):
                 run.work, workers=16, label="lines")
     if r.violated:
         raise MachineryError(f"HyLines: {r.violated} violated on the specification")
-    run.add_tlc(r, f"HyLines: every chain of <= {md} enclosing constructs (31 kinds) x 9 raising forms, with its layout")
+    run.add_tlc(r, f"HyLines: every chain of <= {md} enclosing constructs (31 kinds) x 14 raising forms, with its layout")
     rows = r.ex("PROG")
     run.log(f"TLC: {len(rows)} programs")
     rows.sort(key=lambda x: json.dumps(x, sort_keys=True))
@@ -161,7 +164,7 @@ def main(run):
     return run.finish("model_checking",
                       f"every chain of <= {md} enclosing constructs out of 31 (statement-lifting forms, comprehensions of both "
                       "strategies, functions, classes, try / with / loops, let, match, call and collection slots, f-string, core "
-                      "and user macros) around each of 9 raising forms (1-3 lines); HyLines computes the line span of the raising "
+                      "and user macros) around each of 14 raising forms (1-3 lines); HyLines computes the line span of the raising "
                       "form; the program is compiled and run and the last traceback frame of the module compared with the span"
 ,
                       extra={"programs": len(rows)})
